@@ -47,16 +47,20 @@ func genBulkA(t *rapid.T) *Bulk {
 	bl := &Bulk{}
 	switch rapid.SampledFrom([]string{"items", "items", "nesting", "file-size"}).Draw(t, "scale-what") {
 	case "items":
-		bl.N = genScaleCount(t, "scale-items", 8193)
+		bl.N = genScaleCount(t, "scale-items", 1025, 8193)
 		bl.BlockEvery = genBlockEvery(t)
 		bl.Nest = rapid.SampledFrom([]int{0, 0, 1, 2}).Draw(t, "bulk-nest")
 	case "nesting":
 		bl.N = rapid.IntRange(0, 3).Draw(t, "scale-items-small")
-		bl.Nest = genScaleCount(t, "scale-nesting", 1025)
+		bl.Nest = genScaleCount(t, "scale-nesting", 513, 1025)
 	default:
 		// N x Width bytes: 1 KiB .. 4 MiB (the large sizes are rare: each costs about a second)
-		size := rapid.SampledFrom([]int{1 << 10, 4 << 10, 64 << 10, 64 << 10, 256 << 10, 1 << 20, 1 << 20, 4 << 20}).Draw(t, "scale-file-size")
-		bl.N = genScaleCount(t, "scale-items", 4097)
+		sizes := []int{1 << 10, 1 << 10, 4 << 10, 4 << 10, 4 << 10, 16 << 10, 16 << 10, 16 << 10, 64 << 10, 64 << 10, 64 << 10, 64 << 10, 256 << 10, 256 << 10, 256 << 10, 1 << 20}
+		if core.Tier() == "thorough" {
+			sizes = append(sizes, 1<<20, 4<<20)
+		}
+		size := rapid.SampledFrom(sizes).Draw(t, "scale-file-size")
+		bl.N = genScaleCount(t, "scale-items", 1025, 4097)
 		bl.Width = size / bl.N
 		if bl.Width < 1 {
 			bl.Width = 1
@@ -98,7 +102,7 @@ func genSource(t *rapid.T) (string, string, []string) {
 func genA(t *rapid.T) CaseA {
 	src, origin, feat := genSource(t)
 	c := CaseA{Origin: origin, Src: src, Feat: feat}
-	if rapid.IntRange(0, scaleShare-1).Draw(t, "scale") == 0 {
+	if oneIn(t, "scale", scaleShareA()) {
 		c.Bulk = genBulkA(t)
 	}
 	c.Reuse = genReuse(t)
@@ -454,13 +458,14 @@ func classifyA(c CaseA) core.Class {
 		}
 	}
 	cl.Fingerprint = fmt.Sprintf("%s|h=%v|c=%v|t=%v|crlf=%v|nofinalnl=%v|fg=%d", c.Origin, heredoc, comment, template, strings.Contains(c.Src, "\r\n"), !strings.HasSuffix(c.Src, "\n"), h%16)
+	recordScale("a", cl.Labels)
 	return cl
 }
 
 func TestC20a(t *testing.T) {
 	core.Run(t, core.Spec[CaseA]{
 		Property: "C20", Sub: "a",
-		Rule: "source files written from the grammar (all main-mode token kinds, # // /* */ comments, quoted templates and <<X / <<-X heredocs with interpolations, if/for directives and ~ markers, blocks with 0-2 quoted or bare labels, one-line blocks, odd spacing, tabs, blank lines, LF or CRLF, with or without final newline) or noisy renderings of schema instances (C19 renderer, with dynamic blocks); sources that hclsyntax rejects are skipped and counted. Oracle: one or two different files per case, every []byte returned by Tokens.Bytes / File.Bytes / Format / Body, Expression and Traversal token serialisations is retained and must stay what it was after every later call and into the next case; P1: token stream of hclwrite.ParseConfig's tree == source with the space/tab runs between scanner tokens turned into spaces, File.Bytes()==Format(src); P2: Format keeps every token (type, bytes), leaves only spaces between tokens, is idempotent, output parses to the same tree (ranges ignored) and every attribute evaluates to the same value. Non-trivial: the file has a heredoc, a comment or a template sequence; distinct = (origin, heredoc, comment, template, CRLF, missing final newline, hash of token-feature set mod 16). In about half of the cases the caller reuses its input buffers (labels input:caller-reuses-buffer|fill-0xAA / other-source-bytes / next-source-parsed, the other half input:caller-leaves-buffer-alone): as soon as a parsing entry point has returned, the []byte that was passed to it is filled with 0xAA, or overwritten with the bytes of a different generated source of the same length, or truncated and the next source read into the same backing array and parsed; everything obtained from the call is used only after that and must be what it is in the other half (oracles work on a private copy of the text taken before the call). Here: the buffers given to hclwrite.ParseConfig + hclsyntax.ParseConfig (reused before the writer file is serialised for P1 and before the native tree is dumped/evaluated for P2), to Format, and the caller's copy of the formatted text given to hclsyntax.ParseConfig; every writer file loaded in the case is held until all files are loaded and File.Bytes() must then still equal Format(src)",
+		Rule: "source files written from the grammar (all main-mode token kinds, # // /* */ comments, quoted templates and <<X / <<-X heredocs with interpolations, if/for directives and ~ markers, blocks with 0-2 quoted or bare labels, one-line blocks, odd spacing, tabs, blank lines, LF or CRLF, with or without final newline) or noisy renderings of schema instances (C19 renderer, with dynamic blocks); sources that hclsyntax rejects are skipped and counted. Oracle: one or two different files per case, every []byte returned by Tokens.Bytes / File.Bytes / Format / Body, Expression and Traversal token serialisations is retained and must stay what it was after every later call and into the next case; P1: token stream of hclwrite.ParseConfig's tree == source with the space/tab runs between scanner tokens turned into spaces, File.Bytes()==Format(src); P2: Format keeps every token (type, bytes), leaves only spaces between tokens, is idempotent, output parses to the same tree (ranges ignored) and every attribute evaluates to the same value. Non-trivial: the file has a heredoc, a comment or a template sequence; distinct = (origin, heredoc, comment, template, CRLF, missing final newline, hash of token-feature set mod 16). In about half of the cases the caller reuses its input buffers (labels input:caller-reuses-buffer|fill-0xAA / other-source-bytes / next-source-parsed, the other half input:caller-leaves-buffer-alone): as soon as a parsing entry point has returned, the []byte that was passed to it is filled with 0xAA, or overwritten with the bytes of a different generated source of the same length, or truncated and the next source read into the same backing array and parsed; everything obtained from the call is used only after that and must be what it is in the other half (oracles work on a private copy of the text taken before the call). Here: the buffers given to hclwrite.ParseConfig + hclsyntax.ParseConfig (reused before the writer file is serialised for P1 and before the native tree is dumped/evaluated for P2), to Format, and the caller's copy of the formatted text given to hclsyntax.ParseConfig; every writer file loaded in the case is held until all files are loaded and File.Bytes() must then still equal Format(src). SCALE (about 1 case in 100; labels scale:items-per-body(source):<bucket>, scale:block-nesting-depth:<bucket>, scale:file-size:<bucket>, also counted in the evidence extra c20a_scale_cases_of_one_shard): a run of N items (attributes of eight shapes with comments, templates, heredocs, tabs, operators; every 3rd/16th/100th item a labelled block) is written in front of or behind the generated source, at root level or inside 1-2 wrapping blocks, N from the threshold-adjacent pool {63,64,65, 127,128,129, 255,256,257, 511,512,513, 999,1000,1001, 1023,1024,1025, 2047,2048,2049, 4095,4096,4097, 8191,8192,8193} cut at 1025 in the quick tier (thorough: 8193); or 0-3 items inside 63..513 (thorough: 1025) nested blocks; or N<=1025 (thorough: 4097) attributes with string values sized so that the file has 1 KiB .. 1 MiB (thorough: 4 MiB); same oracles P1 and P2 on the whole file",
 		Gen:  genA, Check: checkA, Classify: classifyA,
 		Assumptions: []string{
 			"hclsyntax.ParseConfig decides what a syntactically valid file is; hclsyntax.LexConfig token ranges decide what lies between tokens",
